@@ -100,7 +100,7 @@ class LoopSpec:
     """
 
     def __init__(self, fingerprint, inv=None, havoc_types=None, unroll=False, extra_modifies=(), cut_concrete=False,
-                 havoc_like=None, convert=None):
+                 havoc_like=None, convert=None, keep_attrs=None):
         self.fingerprint = fingerprint
         self.inv = inv
         self.havoc_types = havoc_types or {}
@@ -109,6 +109,9 @@ class LoopSpec:
         self.cut_concrete = cut_concrete
         self.havoc_like = havoc_like or {}
         self.convert = convert or {}
+        # {object variable: [attributes]} of objects listed in extra_modifies that the loop must NOT modify: they are not havoc'd and an
+        # identity obligation (`same object after the body`) is raised for each -- the frame is proved, not assumed
+        self.keep_attrs = keep_attrs or {}
 
 
 class FuncSpec:
